@@ -20,6 +20,7 @@ type vCluster struct {
 	lat     func(src, dst int) time.Duration
 	packets int
 	streams int
+	initial []map[string]bool // names each node listed when the run began (nil = every node)
 }
 
 func vClusterAddr(i int) string { return joinHostPort(net.IP{10, 0, 0, byte(i + 1)}.String(), 7946) }
@@ -169,7 +170,9 @@ func (c *vCluster) assertEventLogs() {
 		listed := map[string]bool{}
 		meta := map[string][]byte{}
 		for j := range c.f {
-			listed[vClusterNames[j]] = true
+			if c.initial == nil || c.initial[i][vClusterNames[j]] {
+				listed[vClusterNames[j]] = true
+			}
 		}
 		for _, e := range f.ev.log {
 			switch e.kind {
@@ -443,7 +446,86 @@ func H_C04_SlowDelegate_RT() {
 	vCover("c04.slow")
 }
 
+// forget removes name from node i's table (the node has never heard of it).
+func (c *vCluster) forget(i int, name string) {
+	m := c.f[i].m
+	delete(m.nodeMap, name)
+	kept := m.nodes[:0]
+	for _, ns := range m.nodes {
+		if ns.Name != name {
+			kept = append(kept, ns)
+		}
+	}
+	m.nodes = kept
+	m.numNodes.Store(uint32(len(kept)))
+}
+
+// H_C09_ClusterJoin: a newcomer (node 3, knows only itself) joins a running 3-node cluster through the public Join
+// while everybody keeps probing and gossiping (symbolic latency below ProbeTimeout/2). Join reports success; at once
+// the joiner lists the host and everybody the host reported, and the host lists the joiner; one interval later the
+// other members list the joiner too (learnt by gossip); nobody is suspected, every health score stays 0, and on every
+// node the callbacks account for Members() exactly.
+func H_C09_ClusterJoin() {
+	vOpt("rand-zero", 1)
+	vOpt("threads", 6000)
+	vOpt("timers", 6000)
+	vOpt("sched-det", 1)
+	vOpt("krandom-det", 1)
+	n := 4
+	tcp := vPick(2) == 1
+	c := vNewCluster(n, func(i int, conf *Config) { conf.DisableTcpPings = !tcp })
+	c.initial = make([]map[string]bool, n)
+	for i := 0; i < n; i++ {
+		c.initial[i] = map[string]bool{}
+		if i < 3 {
+			c.forget(i, vClusterNames[3])
+			for j := 0; j < 3; j++ {
+				c.initial[i][vClusterNames[j]] = true
+			}
+		} else {
+			for j := 0; j < 3; j++ {
+				c.forget(3, vClusterNames[j])
+			}
+			c.initial[3][vClusterNames[3]] = true
+		}
+	}
+	half := int(c.f[0].m.config.ProbeTimeout / 2)
+	l := time.Duration(vRange(0, half-1))
+	c.lat = func(src, dst int) time.Duration { return l }
+	rot := vPick(3)
+	for i := 0; i < 3; i++ {
+		c.f[i].m.probeIndex = (i + rot) % 3
+	}
+	host := vPick(1 + 2*vTier()) // quick: node 0; thorough: any member
+	at := vPick(2)
+	joined, cnt := false, 0
+	var jerr error
+	for r := 0; r < 3; r++ {
+		if r == at {
+			go func() {
+				cnt, jerr = c.f[3].m.Join([]string{vClusterAddr(host)})
+				joined = true
+			}()
+			vYield()
+			vAssert(joined, "c09.cluster.join-returns")
+			vAssert(jerr == nil && cnt == 1, "c09.cluster.join-succeeds")
+			for j := 0; j < 3; j++ {
+				vAssert(c.f[3].vIsMember(vClusterNames[j]), "c09.cluster.joiner-lists-host-and-reported-members")
+			}
+			vAssert(c.f[host].vIsMember(vClusterNames[3]), "c09.cluster.host-lists-joiner")
+		}
+		c.round(-1)
+		c.assertHealthy(-1, "")
+	}
+	for i := 0; i < n; i++ {
+		vAssert(len(c.f[i].m.Members()) == n, "c09.cluster.everybody-lists-everybody-one-interval-later")
+	}
+	c.stop()
+	vCover("c09.cluster.join")
+}
+
 func init() {
+	vRegister("H_C09_ClusterJoin", H_C09_ClusterJoin)
 	vRegister("H_C04_SlowDelegate_RT", H_C04_SlowDelegate_RT)
 	vRegister("H_C04_Cluster", H_C04_Cluster)
 	vRegister("H_C08_ClusterLeave", H_C08_ClusterLeave)
